@@ -543,7 +543,10 @@ class DiskChopper:
             )
 
         frequency = abs(self.frequency)
-        pulse_frequency = pulse_frequency.to(unit=frequency.unit)
+        # Convert as float: an integer would be rounded to a whole number of the new unit.
+        pulse_frequency = pulse_frequency.to(
+            unit=frequency.unit, dtype='float64', copy=False
+        )
         quot = frequency / pulse_frequency
         if not _is_int_or_inverse_int(quot, rtol=sc.scalar(1e-8)):
             raise ValueError(
